@@ -3,7 +3,12 @@
 package sim
 
 import (
+	"bytes"
+	"fmt"
 	"hash/fnv"
+	"runtime"
+	"strconv"
+	"strings"
 	"sync/atomic"
 	"time"
 
@@ -13,7 +18,8 @@ import (
 )
 
 // yieldBuilt: this binary was built from the copy of the client instrumented
-// by cmd/yieldinst (scheduling points around the client's mutex operations).
+// by cmd/yieldinst (scheduling points around the client's mutex, atomic and
+// sync.Map operations).
 const yieldBuilt = true
 
 type yieldState struct {
@@ -22,6 +28,14 @@ type yieldState struct {
 	count map[string]uint64
 	fired int64
 	sites map[string]bool
+	// held: mutexes the goroutine holds by the instrumenter's count; a
+	// goroutine is only delayed / parked while it holds none, because a
+	// goroutine waiting for a mutex inside the bubble is not durably blocked
+	// (the fake clock and the scheduler's quiescence would wait for it)
+	held map[uint64]int
+	// sched: the scheduler's own goroutine (client code it runs inline, e.g.
+	// a close listener, must never wait for the scheduler)
+	sched uint64
 }
 
 func yieldHash(seed uint64, site string, n uint64) uint64 {
@@ -40,28 +54,91 @@ func yieldHash(seed uint64, site string, n uint64) uint64 {
 	return x
 }
 
-// installYield arms the scheduling points for this run: a seed-chosen half of
-// the sites is active, and an active site delays the calling goroutine by 1-3
-// simulated milliseconds the first two times and then every other time it is
-// reached (decided by the seed,
-// the site and the count of visits, never by a clock or a shared generator).
+func goid() uint64 {
+	var buf [64]byte
+	b := buf[:runtime.Stack(buf[:], false)]
+	b = bytes.TrimPrefix(b, []byte("goroutine "))
+	if i := bytes.IndexByte(b, ' '); i > 0 {
+		n, _ := strconv.ParseUint(string(b[:i]), 10, 64)
+		return n
+	}
+	return 0
+}
+
+// visit does the bookkeeping of one scheduling point and reports whether the
+// goroutine should give way here, and the visit number of the site.
+func (st *yieldState) visit(site string) (yield bool, n uint64) {
+	kind := site[strings.LastIndexByte(site, ':')+1:]
+	g := goid()
+	st.mu.Lock()
+	defer st.mu.Unlock()
+	if g == st.sched {
+		return false, 0
+	}
+	switch kind {
+	case "after-lock":
+		st.held[g]++
+		return false, 0
+	case "after-unlock":
+		if st.held[g] > 0 {
+			st.held[g]--
+		}
+		if st.held[g] == 0 {
+			delete(st.held, g)
+		}
+	}
+	if st.held[g] > 0 {
+		return false, 0
+	}
+	if yieldHash(st.seed, site, 0)%2 != 0 {
+		return false, 0 // site not active in this run
+	}
+	st.count[site]++
+	n = st.count[site]
+	st.sites[site] = true
+	return true, n
+}
+
+// installYield arms the scheduling points for a free-running engine (C20): a
+// seed-chosen half of the sites is active, and an active site delays the
+// calling goroutine by 1-3 simulated milliseconds the first two times and then
+// every other time it is reached (decided by the seed, the site and the count
+// of visits, never by a clock or a shared generator).
 func installYield(seed uint64) *yieldState {
-	st := &yieldState{seed: seed, count: map[string]uint64{}, sites: map[string]bool{}}
+	st := &yieldState{seed: seed, count: map[string]uint64{}, sites: map[string]bool{}, held: map[uint64]int{}}
 	simyield.SetHook(func(site string) {
-		if yieldHash(seed, site, 0)%2 != 0 {
+		ok, n := st.visit(site)
+		if !ok {
 			return
 		}
-		st.mu.Lock()
-		st.count[site]++
-		n := st.count[site]
-		st.sites[site] = true
-		st.mu.Unlock()
 		x := yieldHash(seed, site, n)
 		if n > 2 && x%2 != 0 {
 			return // rarely reached sites (a periodic background pass) always delay
 		}
 		atomic.AddInt64(&st.fired, 1)
 		time.Sleep(time.Duration(1+(x>>8)%3) * time.Millisecond)
+	})
+	return st
+}
+
+// installYieldParked arms the scheduling points for an engine whose goroutines
+// run one at a time under the seeded scheduler: at an active site the
+// goroutine parks (every other visit) and the scheduler decides, from the
+// run's tape, when it goes on - so two client goroutines can be interleaved
+// between any two synchronisation operations, not only at messages and
+// statements.
+func installYieldParked(sim *simkit.Sim, seed uint64) *yieldState {
+	st := &yieldState{seed: seed, count: map[string]uint64{}, sites: map[string]bool{}, held: map[uint64]int{}, sched: goid()}
+	simyield.SetHook(func(site string) {
+		ok, n := st.visit(site)
+		if !ok {
+			return
+		}
+		if yieldHash(seed, site, n)%2 != 0 {
+			return
+		}
+		atomic.AddInt64(&st.fired, 1)
+		sim.Park(fmt.Sprintf("yield|%s|%06d", site, n), "")
 	})
 	return st
 }
